@@ -7,6 +7,7 @@ import Walleye.Model.SearchChess
 import Walleye.Model.Time
 import Walleye.Spec.Abs
 import Walleye.Ops
+import Walleye.Spec.Negamax
 open Walleye
 
 def hexDigit (n : Nat) : Char := if n < 10 then Char.ofNat (48 + n) else Char.ofNat (87 + n)
@@ -156,11 +157,14 @@ def runSearch (ctx : Ctx) (k : Option Nat) (log : Option (Array (Char × Array S
   let infos := s.reports.toList.filterMap fun
     | .info i => some (infoText i)
     | _ => none
-  let roots := match log with
-    | some _ => (s.ord.log.toList.take s.ord.pos).countP (fun (e : Char × Array String) => e.1 == 'R')
-    | none => 0
+  let roots := s.ord.rootSorts
   { text := s!"sent={";".intercalate sent}~info={";".intercalate infos}~tbl={tableStr s.table}~q={s.queries}~roots={roots}~panic={flag}",
     bad := s.ord.bad }
+
+def scoreText (e : Int) : String :=
+  if e ≥ Gen.mateScore - Gen.mateWindow then s!"mate {Int.tdiv (Gen.mateScore - e + 1) 2}"
+  else if e ≤ -Gen.mateScore + Gen.mateWindow then s!"mate {Int.tdiv (Gen.mateScore + e) (-2)}"
+  else s!"cp {e}"
 
 def splitOnce (s : String) (sep : String) : String × String :=
   match s.splitOn sep with
@@ -269,12 +273,66 @@ def doOp (ctx : Ctx) (line : String) : Ctx × String × String :=
     (match (splitSp rest).map String.toNat! with
      | [r, c] => (ctx, String.ofList (pointDisplay ⟨r, c⟩), "-")
      | _ => (ctx, "bad-op", "-"))
-  | "search" | "searchd" =>
-    -- `search <k> <ordlog>` ; for searchd the orchestrator passes the k found by the harness
+  | "search" =>
+    -- `search <k> <ordlog>`
     let (kStr, logStr) := splitOnce rest " "
     let k := if kStr == "inf" then none else some kStr.toNat!
     let out := runSearch ctx k (some (parseOrd logStr))
     (ctx, out.text ++ (match out.bad with | some b => "~ORDER-LOG-MISMATCH " ++ b | none => ""), "-")
+  | "searchd" =>
+    -- `searchd <N> <k> <ordlog>`: the run that completes iterations 1..N; S = minimax values
+    let (nStr, rest2) := splitOnce rest " "
+    let (kStr, logStr) := splitOnce rest2 " "
+    let out := runSearch ctx (some kStr.toNat!) (some (parseOrd logStr))
+    let S := ";".intercalate ((List.range nStr.toNat!).map fun i =>
+      let d := i + 1
+      let g := chessGame H
+      -- first move full window, then (best-1, +inf): exact whenever the value is >= best, so ties are seen
+      let (best, arg) := (sortDesc (generateMoves H ctx.cur .all)).foldl (fun (acc : Int × List String) m =>
+          let (best, arg) := acc
+          let lo := if arg.isEmpty then -Gen.posInf else best - 1
+          let v := - Spec.fast g sortDesc abFuel (d - 1) 1 ctx.table m (-Gen.posInf) (-lo)
+          if arg.isEmpty || v > best then (v, [moveId m])
+          else if v == best then (best, arg ++ [moveId m])
+          else (best, arg)) ((-Gen.posInf : Int), ([] : List String))
+      s!"D={d}:{best}:{scoreText best}:{",".intercalate arg}")
+    (ctx, out.text ++ (match out.bad with | some b => "~ORDER-LOG-MISMATCH " ++ b | none => ""), S)
+  | "mateinfo" =>
+    -- S: moves that mate at once; moves after which the opponent has no mate in one; mate-in-2/3 existence
+    let g := fun (p : Pos) => generateMoves H p .all
+    let isMate := fun (p : Pos) => (g p).isEmpty && isCheck p p.toMove
+    let kids := g ctx.cur
+    let m1 := kids.filter isMate |>.map moveId
+    let safe := kids.filter (fun c => !(g c).any isMate) |>.map moveId
+    let stale := kids.isEmpty && !isCheck ctx.cur ctx.cur.toMove
+    (ctx, "-", s!"m1={",".intercalate m1}~safe={",".intercalate safe}~stalemate={if stale then 1 else 0}~n={kids.length}")
+  | "matecheck" =>
+    -- `matecheck <N> <first move|->`: N>0: after the given first move the opponent is mated within N-1
+    -- further moves of ours (so a forced mate in <= N exists); N<0: whatever we play, we are mated within |N|
+    let g := fun (p : Pos) => generateMoves H p .all
+    let isMate := fun (p : Pos) => (g p).isEmpty && isCheck p p.toMove
+    let rec mateIn : Nat → Pos → Bool
+      | 0, _ => false
+      | n + 1, p => (g p).any fun c => isMate c || (n > 0 && !(g c).isEmpty && (g c).all fun r => mateIn n r)
+    let rec forcedAfter : Nat → Pos → Bool       -- side to move at `c` cannot avoid being mated within n more moves of the opponent
+      | n, c => isMate c || (n > 0 && !(g c).isEmpty && (g c).all fun r => mateIn n r)
+    (match splitSp rest with
+     | [nS, mv] =>
+       let n := nS.toInt!
+       if n > 0 then
+         let cand := (g ctx.cur).filter fun c => mv == "-" || (moveId c).take 4 == mv.take 4
+         (ctx, "-", if cand.any (forcedAfter (n.toNat - 1)) then "true" else "false")
+       else
+         let k := (-n).toNat
+         let kids := g ctx.cur
+         (ctx, "-", if !kids.isEmpty && kids.all (fun c => mateIn k c) then "true" else "false")
+     | _ => (ctx, "bad-op", "-"))
+  | "evalrel" =>
+    let vals := (rest.splitOn "|").map fun f =>
+      match fromFen H f.toList with
+      | .ok p => toString (getEvaluation p)
+      | _ => "x"
+    (ctx, " ".intercalate vals, "-")
   | "sweep" =>
     -- `sweep <k1,k2,...> <ordlog>`
     let (ks, logStr) := splitOnce rest " "
@@ -313,8 +371,24 @@ def main (args : List String) : IO Unit := do
       | "castle" => runG seed (castleLattice (n 0 50))
       | "chk" => runG seed (checkLattice (n 0 100))
       | "pairs" => pairOps (n 0 1)
+      | "eval" => runG seed (evalOps (n 0 1000))
+      | "search" => runG seed (searchOps (n 0 20) (n 1 30) ((rest.drop 2).map fun a => a.replace "_" " "))
+      | "mate" => runG seed (mateOps (n 0 20) ((rest.drop 1).map fun a => a.replace "_" " "))
+      | "rep" => runG seed (repOps (n 0 20) (n 1 30) (n 2 4) ((rest.drop 3).map fun a => a.replace "_" " "))
       | "cap" => runG seed (capOps (n 0 50) (n 1 30) (n 2 6))
       | _ => []
     let hout ← IO.getStdout
     for l in lines do hout.putStrLn l
+  | ["timefast", fen] =>
+    match fromFen H fen.toList with
+    | .ok p =>
+      let g := chessGame H
+      for d in [1,2,3] do
+        let t0 ← IO.monoMsNow
+        let vals := (generateMoves H p .all).map fun m =>
+          (moveId m, - Spec.fast g sortDesc 100000 (d - 1) 1 [] m (-Gen.posInf) Gen.posInf)
+        IO.println s!"{d} {vals.take 3}"
+        let t1 ← IO.monoMsNow
+        IO.println s!"ms {t1 - t0}"
+    | _ => pure ()
   | _ => IO.eprintln "usage: wvm run | wvm genops <kind> <seed> [args]"
